@@ -115,6 +115,7 @@ def extract(features=None, packages=None, force=False, quiet=True):
     try:
         if not force and not os.environ.get('VERIF_NOCACHE') and all(os.path.exists(w) for w in want):
             info['cached'] = True
+            os.utime(out, None)
             return out, info
         t0 = time.time()
         ensure_driver()
